@@ -267,6 +267,22 @@ pub fn run(ctx: &Ctx, st: &mut Stats) {
     if sstride == 1 {
         st.mark_exhaustive("all seconds of the day (Time) through JSON and bincode", "all 86,400 seconds (with varying microseconds)");
     }
+    // pool dates x bit-structured times as Timestamp / OracleDate / Time
+    let bts = crate::pools::bit_times();
+    let dpool = crate::pools::date_pool();
+    let (bts_ref, dpool_ref) = (&bts, &dpool);
+    let bstep = ctx.tier.pick(4999, 11, 1);
+    ctx.par(st, "pool dates x bit-structured times (Timestamp, OracleDate, Time) through JSON and bincode", true, 0, (dpool.len() * bts.len()) as i64 / bstep, |st, i, _| {
+        let i = (i * bstep) as usize;
+        let (y, m, d) = cal().of(dpool_ref[i / bts_ref.len()]);
+        let t = bts_ref[i % bts_ref.len()];
+        let (h, mi, s, us) = ((t / 3_600_000_000) as u32, (t / 60_000_000 % 60) as u32, (t / 1_000_000 % 60) as u32, (t % 1_000_000) as u32);
+        st.eval(&S::Rt(V::Ts(y, m, d, h, mi, s, us)), check);
+        st.eval(&S::Rt(V::Ora(y, m, d, h, mi, s)), check);
+        if i / bts_ref.len() == 0 {
+            st.eval(&S::Rt(V::Time(h, mi, s, us)), check);
+        }
+    });
     let n = ctx.tier.pick(36, 600_000, ctx.big(12_000_000, 80_000_000));
     ctx.par(st, "random values of all six types through JSON and bincode", false, 0, n, |st, i, rng| {
         let v = rand_value(rng, ALL_TY[(i % 6) as usize]);
